@@ -491,7 +491,7 @@ func oracleC12(f *sessionFam, w *World, res *Result) []Violation {
 		for _, a := range sortedKeys(opened) {
 			n := 0
 			late := false
-			for _, e := range w.evs(a, "close") {
+			for _, e := range w.closesOf(a) {
 				n++
 				if e.T > sd.T {
 					late = true
